@@ -195,7 +195,7 @@ Proof.
             repeat match goal with
                    | |- context [if ?b then _ else _] => destruct b eqn:?
                    end; cbn;
-            split; [rewrite ?app_nil_r; shape_done | intros u; cbn; try rewrite wake_nomutex; apply Nm]).
+            (split; [rewrite ?app_nil_r; shape_done | intros u; cbn; try rewrite wake_nomutex; apply Nm])).
   - (* a yield in progress *)
     destruct y; cbn.
     + (* YRead *) split; [apply (sh_yield _ _ (YfNext _)); assumption | exact Nm].
